@@ -1,3 +1,4 @@
+import os
 import importlib.util, os
 _pc = importlib.util.spec_from_file_location("pool_common", os.path.join(os.path.dirname(os.path.dirname(os.path.abspath(__file__))), "pool_common.py")); PC = importlib.util.module_from_spec(_pc); _pc.loader.exec_module(PC)
 MOD = "consensus::pool::slot_state::kani_c04"
@@ -34,6 +35,14 @@ POOL_REDIRECTS = [
     redirect(FTR, "use std::collections::btree_map::Entry;", "use crate::verif_coll::btree_map::Entry;"),
 ]
 Q, T = ["quick", "thorough"], ["thorough"]
+# "an admitted vote is on record, also when the certificate of its class already exists": C03's step harnesses check it
+# (they are built from C03's overlay set); the two whose certificate is already present are re-run under this property
+_c3g = {"__file__": os.path.join(os.path.dirname(os.path.dirname(os.path.abspath(__file__))), "C03", "spec.py")}
+exec(compile(open(_c3g["__file__"]).read(), _c3g["__file__"], "exec"), _c3g)
+_C3 = _c3g["SPEC"]
+RECORDED = [dict(h, tiers=(Q if h["name"] == "c03_p_final_01_zz" else T), role="admitted vote recorded/" + h["role"],
+                 build={"overlays": _C3["overlays"], "redirects": _C3["redirects"], "coll_cap": _C3["coll_cap"]})
+            for h in _C3["harnesses"] if h["name"] in ("c03_p_final_01_zz", "c03_p_skip_01_zz", "c03_p_sfallback_01_zz")]
 SPEC = {
     "property": "C04",
     "level_text": "Bounded symbolic verification of the real vote-admission filter: for every admissible set of votes the pool can already hold from a validator (notar A|B, notar-fallback for any subset of {A,B}, skip, skip-fallback, final) and every new vote of each of the five kinds, the solver shows that check_slashable_offence + should_ignore_vote report a slashable offence exactly for the conflicting pairs of the property statement (under an applicable name, for the right validator and slot, in either arrival order because the relation is checked for all held/new combinations), refuse exact and equivalent repeats as duplicates, and admit everything else - in particular every combination an honest validator can cast; votes of another validator never matter. A second family shows that an admitted vote is counted once, in exactly its class.",
@@ -59,5 +68,6 @@ SPEC = {
             "bounds": "fresh pool, 2 validators (stakes 1 and 9), slot 5; held votes of the voter symbolic (admissible sets), new vote hash symbolic; SlotState::add_vote (counting) replaced by a recording stub"} for k in KINDS]
         + [{"name": f"c04_count_{k}", "path": MOD, "tiers": [], "role": f"counted once/{k}", "stubs": ["crypto::aggsig::SecretKey::sign"], "covers": 1,
             "functions": ["SlotState::add_vote", "SlotState::count_*_stake", "SlotState::check_slashable_offence", "SlotState::should_ignore_vote"], "bounds": "fresh slot state, one vote with symbolic hash, stakes 1/9"} for k in KINDS]
+        + RECORDED
     ),
 }
